@@ -16,7 +16,7 @@ RULE = (
     "seeded local-store configurations (internal_dir / data_dir each absolute, relative to the cwd, with trailing "
     "separator, nested and not yet existing, or below a symlinked parent; cache_objects in {None, False, True, 0, -1, 1, "
     "3}) x seeded histories of keep / load / chdir / restart (fresh forked process, started in the original or in "
-    "another cwd) / switch between two data views sharing one internal directory, all through dds.set_store / dds.keep "
+    "another cwd) / keep of a function that itself keeps an intermediate path / switch between two data views sharing one internal directory, all through dds.set_store / dds.keep "
     "/ dds.load. Oracles: keep returns the value, load returns the view's latest kept value (same process, after chdir, "
     "fresh process), a result computed in one view is not recomputed in the other, each view has its own path table. "
     "Non-trivial: a load after chdir or restart, or a keep in the second view of something computed in the first; "
@@ -29,7 +29,8 @@ COMPONENTS = {
 ASSUMPTIONS = ["a fresh process that starts in another working directory is configured with the same physical directories",
                "directories are usable (creatable, writable)"]
 PROBES = ["internal:rel", "internal:symlinked_parent", "internal:nested", "internal:trailing", "data:rel", "data:symlinked_parent",
-          "cache:0/False", "load_after_chdir", "load_in_fresh_process", "second_view_reuses_blob", "views_diverge"]
+          "cache:0/False", "load_after_chdir", "load_in_fresh_process", "second_view_reuses_blob", "views_diverge", "nested_keep",
+          "second_view_reuses_nested_keep"]
 FORMS = ["abs", "rel", "trailing", "nested", "symlinked_parent"]
 APISRC = os.path.join(VERIF_ROOT, "ddsim", "storesim", "apisrc")
 PATHS = ["/p", "/q", "/d/r", "/d/e/s"]
@@ -45,10 +46,13 @@ def gen_case(streams, tier, avoid):
     for _ in range(n):
         r = rng.random()
         view = rng.choice([0, 0, 1])
-        if r < 0.4:
+        if r < 0.1:
+            # a kept function that itself keeps an intermediate result at /stage/inner
+            case["ops"].append(["keep2", view, rng.choice(PATHS), rng.choice(KINDS), rng.randint(0, 3)])
+        elif r < 0.4:
             case["ops"].append(["keep", view, rng.choice(PATHS), rng.choice(KINDS), rng.randint(0, 3)])
         elif r < 0.7:
-            case["ops"].append(["load", view, rng.choice(PATHS)])
+            case["ops"].append(["load", view, rng.choice(PATHS + ["/stage/inner"])])
         elif r < 0.85:
             case["ops"].append(["chdir"])
         else:
@@ -162,28 +166,36 @@ def run_case(case):
                     violations.append({"oracle": "C16.roundtrip",
                                        "detail": f"step {step}: set_store(local) on a usable configuration failed: {str(e)[:300]}"})
                     break
-            if k == "keep":
+            if k in ("keep", "keep2"):
                 _, _, path, kind, n = op
-                out = proc.call({"cmd": "eval", "entry": "apiprog:make", "style": "keep", "path": path, "args": [kind, n]})
-                from ..storesim.apifuns import make_val
-
-                exp = canon(make_val(kind, n))
+                fname = "make" if k == "keep" else "outer"
+                out = proc.call({"cmd": "eval", "entry": "apiprog:" + fname, "style": "keep", "path": path, "args": [kind, n]})
+                what = (fname, kind, n)
+                exp = _expected(what)
                 log.append([step, op, out["res"][:2], out["log"]])
-                akey.append(["keep", view, (kind, n) in computed, path in tables[view]])
+                akey.append([k, view, what in computed, path in tables[view]])
                 if out["res"][0] != "ok" or out["res"][1] != exp:
                     violations.append({"oracle": "C16.roundtrip",
                                        "detail": f"step {step} keep {path} in view {view}: {str(out['res'])[:300]} expected {exp[:60]}"})
                     break
-                if (kind, n) in computed:
-                    if any(pth for pth in tables[1 - view].values()) and (kind, n) in [v for v in tables[1 - view].values()]:
+                if k == "keep2":
+                    probe("nested_keep")
+                if what in computed:
+                    if what in tables[1 - view].values():
                         probe("second_view_reuses_blob")
                         nontrivial = True
-                    if "make" in out["log"]:
+                        if k == "keep2":
+                            probe("second_view_reuses_nested_keep")
+                    if out["log"]:
                         violations.append({"oracle": "C16.share",
-                                           "detail": f"step {step} keep {path} in view {view}: make({kind},{n}) was recomputed although "
+                                           "detail": f"step {step} keep {path} in view {view}: {fname}({kind},{n}) was recomputed ({out['log']}) although "
                                                      f"its result is in the shared internal directory"})
-                computed.add((kind, n))
-                tables[view][path] = (kind, n)
+                computed.add(what)
+                tables[view][path] = what
+                if k == "keep2":
+                    # the intermediate path belongs to the same evaluation: committed in this view as well
+                    computed.add(("inner", kind, n))
+                    tables[view]["/stage/inner"] = ("inner", kind, n)
                 if tables[0].get(path) != tables[1].get(path) and path in tables[0] and path in tables[1]:
                     probe("views_diverge")
             elif k == "load":
@@ -192,9 +204,7 @@ def run_case(case):
                 log.append([step, op, out["res"][:2]])
                 akey.append(["load", view, path in tables[view], after_move])
                 if path in tables[view]:
-                    from ..storesim.apifuns import make_val
-
-                    exp = canon(make_val(*tables[view][path]))
+                    exp = _expected(tables[view][path])
                     if after_move:
                         probe("load_in_fresh_process" if use_abs or cwd_is_base else "load_after_chdir")
                         nontrivial = True
@@ -215,6 +225,18 @@ def run_case(case):
         rmtree(root)
 
 
+def _expected(what):
+    from ..storesim.apifuns import make_val
+
+    fname, kind, n = what
+    v = make_val(kind, n)
+    if fname == "inner":
+        v = ("inner", v)
+    elif fname == "outer":
+        v = ("outer", ("inner", v))
+    return canon(v)
+
+
 def shrink(case):
     for ops in list_removals(case["ops"], 1):
         c = copy.deepcopy(case)
@@ -233,7 +255,7 @@ def shrink(case):
 
 def tags(case):
     t = {"internal:" + case["internal"], "data:" + case["data"]}
-    if any(op[0] in ("keep", "load") and op[1] == 1 for op in case["ops"]):
+    if any(op[0] in ("keep", "keep2", "load") and op[1] == 1 for op in case["ops"]):
         t.add("data2:" + case["data2"])
         t.add("two-views")
     if case["cache"] is not None:
